@@ -21,4 +21,13 @@ if [ -f "bounded/${lc}_test.go" ]; then
   ( cd bounded && VERIF_TIER="$tier" VERIF_BOUNDED_OUT="$bout" go test -count=1 -timeout 20m -run "^Test${prop}\$" . ) > "evidence/.bounded_$prop.log" 2>&1
   bounded_arg="-bounded $bout"
 fi
-exec bin/govc -repo /repo -spec "$PWD/spec" check -prop "$prop" -tier "$tier" -evidence "$PWD/evidence/$prop.json" -replays "$PWD/replays" -known "$PWD/known_findings.json" $bounded_arg
+# exit 0 = held, 1 = violation (a VIOLATION line was printed); 2 = the tool itself could not run (loading /repo through
+# `go list` failed, ...): that says nothing about the property, so it is tried again before it is reported
+for attempt in 1 2 3; do
+  bin/govc -repo /repo -spec "$PWD/spec" check -prop "$prop" -tier "$tier" -evidence "$PWD/evidence/$prop.json" -replays "$PWD/replays" -known "$PWD/known_findings.json" $bounded_arg
+  rc=$?
+  [ $rc -le 1 ] && exit $rc
+  echo "check.sh: govc exited $rc on attempt $attempt" >&2
+  sleep 2
+done
+exit $rc
